@@ -169,10 +169,26 @@ func originOf(f *ssa.Function) *ssa.Function {
 // addressHelpers: functions containing unsafe.Pointer conversions that are referenced only as the static callee
 // of plain calls inside checked functions (transitively); a method value, a go/defer, an interface method of the
 // same name or a call from anywhere else leaves the helper uncovered.
+// isUnsafeBuiltin: a call of unsafe.Add / Slice / SliceData / String / StringData.
+func isUnsafeBuiltin(call *ssa.Call) bool {
+	b, ok := call.Call.Value.(*ssa.Builtin)
+	if !ok {
+		return false
+	}
+	switch b.Name() {
+	case "Add", "Slice", "SliceData", "String", "StringData":
+		return true
+	}
+	return false
+}
+
 func addressHelpers(c *core.Ctx, checked map[*ssa.Function]bool) []*ssa.Function {
 	return coveredHelpers(c, checked, func(fn *ssa.Function) bool {
 		for _, b := range fn.Blocks {
 			for _, in := range b.Instrs {
+				if call, isCall := in.(*ssa.Call); isCall && isUnsafeBuiltin(call) {
+					return true
+				}
 				if cv, ok := in.(*ssa.Convert); ok && (isUnsafePtr(cv.Type()) || isUnsafePtr(cv.X.Type())) {
 					return true
 				}
@@ -407,6 +423,14 @@ func runC01(c *core.Ctx) {
 		for _, fn := range c.W.SourceFuncs(pkg) {
 			for _, b := range fn.Blocks {
 				for _, in := range b.Instrs {
+					if call, isCall := in.(*ssa.Call); isCall && isUnsafeBuiltin(call) {
+						nConv++
+						if !checked[fn] {
+							stray++
+							c.Fail("unsafe-census", ir.FuncName(fn), call.Pos(), "unsafe pointer arithmetic outside the four checked accessor methods")
+						}
+						continue
+					}
 					cv, ok := in.(*ssa.Convert)
 					if !ok {
 						continue
